@@ -42,6 +42,38 @@ func (fr *Frame) call(cc *ssa.CallCommon, instr ssa.Value, rt types.Type) *Value
 	return x.callFunction(fr, callee, args, bindings, rt)
 }
 
+// implementsTerm: does the dynamic type with this tag implement interface it?
+// Known concrete types are decided statically; unknown tags stay uninterpreted.
+func (x *Exec) implementsTerm(tag Term, it types.Type) Term {
+	e := x.eng
+	iface := it.Underlying().(*types.Interface)
+	if id, ok := litVal(tag); ok && id.Int64() > 0 && int(id.Int64()) <= len(e.typeByID) {
+		return BoolLit(types.Implements(e.typeByID[id.Int64()-1], iface))
+	}
+	fn := fmt.Sprintf("impl$%d", e.typeID(it))
+	key := "decl|" + fn
+	if _, ok := x.ctx.named[key]; !ok {
+		x.ctx.named[key] = TTrue
+		x.ctx.globals = append(x.ctx.globals, fmt.Sprintf("(declare-fun %s (Int) Bool)", fn))
+	}
+	// facts for the concrete types seen so far (bytes.Buffer in particular)
+	if bt := e.bufferType(); bt != nil {
+		e.typeID(types.NewPointer(bt))
+	}
+	for i, t := range e.typeByID {
+		if _, isI := t.Underlying().(*types.Interface); isI {
+			continue
+		}
+		k2 := fmt.Sprintf("%s|%d", key, i+1)
+		if _, ok := x.ctx.named[k2]; ok {
+			continue
+		}
+		x.ctx.named[k2] = TTrue
+		x.ctx.globals = append(x.ctx.globals, fmt.Sprintf("(assert (= (%s %d) %v))", fn, i+1, types.Implements(t, iface)))
+	}
+	return App(SBool, fn, tag)
+}
+
 func calleeKeys(fn *ssa.Function) []string {
 	f := fn
 	if f.Origin() != nil {
@@ -89,11 +121,21 @@ func (x *Exec) callFunction(fr *Frame, callee *ssa.Function, args, bindings []*V
 			return v
 		}
 	}
+	if callee.Name() == "init" && callee.Synthetic != "" {
+		return nil // initialisers of imported packages: outside the verified unit
+	}
 	fc := e.contractFor(callee)
+	if x.cur.fc != nil {
+		for _, fb := range x.cur.fc.Forbids {
+			if callee.Name() == fb {
+				fr.obligation("forbidden-call", fb, fr.reach, TFalse, "contract forbids calling "+fb+" from here")
+			}
+		}
+	}
 	if fc != nil && !fc.Inline {
 		return fr.applyContract(fc, callee, args, rt)
 	}
-	if (e.inRepo(callee) || (fc != nil && fc.Inline) || inlineExtern[name]) && len(callee.Blocks) > 0 {
+	if (e.inRepo(callee) || (fc != nil && fc.Inline) || inlineExtern[name] || callee.Synthetic != "") && len(callee.Blocks) > 0 {
 		if !x.onStack(callee) && fr.depth < 6 {
 			return fr.inline(callee, args, bindings, rt)
 		}
@@ -218,9 +260,15 @@ func (fr *Frame) havocReachable(v *Value) {
 			h := x.heapGet(st, key)
 			row := x.ctx.Fresh("hvrow", ElemSort(srt))
 			x.ctx.Assume(e.rowRangeAxiom(key, row))
-			x.heapSet(st, key, x.ctx.Name("M", Store(h, v.C[0], row)))
+			// a nil slice has no backing array: nothing is written
+			x.heapSetAt(st, key, x.ctx.Name("M", Ite(Eq(v.C[0], IntLit(0)), h, Store(h, v.C[0], row))), v.C[0])
 		}
 	case *types.Interface:
+		if isStreamIface(u) && e.bufferType() != nil {
+			// readers/writers are modelled as ghost stream objects
+			x.Store(st, &Ptr{Heap: v.C[1], RootT: e.bufferType()}, fr.havocValue("hvstream", e.bufferType()))
+			return
+		}
 		if id, ok := litVal(v.C[0]); ok && id.Int64() > 0 && int(id.Int64()) <= len(e.typeByID) {
 			t := e.typeByID[id.Int64()-1]
 			if pt, ok := t.Underlying().(*types.Pointer); ok {
@@ -245,6 +293,16 @@ func (fr *Frame) havocReachable(v *Value) {
 			off += n
 		}
 	}
+}
+
+func isStreamIface(u *types.Interface) bool {
+	for i := 0; i < u.NumMethods(); i++ {
+		switch u.Method(i).Name() {
+		case "Read", "Write", "ReadByte":
+			return true
+		}
+	}
+	return false
 }
 
 // havocAll forgets the whole heap.
@@ -298,6 +356,18 @@ func (fr *Frame) invoke(cc *ssa.CallCommon, args []*Value, rt types.Type) *Value
 		}
 	}
 	name := recvT.String() + "." + cc.Method.Name()
+	if cc.Method.Name() == "Len" && len(args) == 1 && e.bufferType() != nil {
+		// Len() of a stream object (bytes.Buffer / bytes.Reader) is its ghost length
+		bt := e.bufferType()
+		res := fr.havocValue("len", types.Typ[types.Int])
+		_, isB := x.readerRef(args[0])
+		g := x.Load(fr.cur, &Ptr{Heap: args[0].C[1], RootT: bt})
+		x.ctx.Assume(Implies(isB, Eq(res.C[0], g.C[2])))
+		x.ctx.Assume(And(Le(IntLit(0), g.C[2]), Le(g.C[2], BigLit(pow2(40)))))
+		x.ctx.Assume(Le(IntLit(0), res.C[0]))
+		x.ctx.Trust("Len() invoked on an interface holding *bytes.Buffer returns the ghost stream length")
+		return res
+	}
 	if cc.Method.Name() == "Error" || cc.Method.Name() == "String" {
 		return fr.havocCall(name, cc.Signature(), args, rt, true)
 	}
@@ -452,7 +522,7 @@ func (fr *Frame) appendOp(s, t *Value, rt types.Type) *Value {
 						Ite(inplace, Select(rowS, k), Select(zero, k)))))
 			c.Assume(Forall([]Term{k}, body, Select(row, k)))
 		}
-		x.heapSet(st, key, c.Name("M", Store(M, rref, row)))
+		x.heapSetAt(st, key, c.Name("M", Store(M, rref, row)), rref)
 	}
 	out := &Value{T: rt, C: []Term{rref, roff, newLen, c.Name("acap", Ite(inplace, cs, newCap))}}
 	return out
@@ -476,7 +546,7 @@ func (fr *Frame) copyOp(d, s *Value, rt types.Type) *Value {
 			rowS, offS = c.Name("rowS", Select(M, s.C[0])), s.C[1]
 		}
 		row := fr.rangeCopy(rowD, d.C[1], rowS, offS, n)
-		x.heapSet(st, key, c.Name("M", Store(M, d.C[0], row)))
+		x.heapSetAt(st, key, c.Name("M", Store(M, d.C[0], row)), d.C[0])
 	}
 	return &Value{T: rt, C: []Term{n}}
 }
@@ -678,6 +748,19 @@ func (fr *Frame) applyContractSig(fc *FuncContract, callee *ssa.Function, sig *t
 		fr.obligation("call", fmt.Sprintf("%s.requires.%s", fc.Key, labelOr(rq.Label, i+1)), fr.reach, t, rq.Text)
 		c.Assume(Implies(fr.reach, t))
 	}
+	if fc.Decreases != nil && callee != nil && x.cur.fc == fc {
+		// self-recursion: the measure strictly decreases and is bounded below
+		top := fr
+		for top.parent != nil {
+			top = top.parent
+		}
+		envTop := &SpecEnv{x: x, vars: top.argVars, st: top.entrySt, old: top.entrySt, fn: top.fn}
+		m0, err0 := envTop.EvalInt(fc.Decreases.E)
+		m1, err1 := envPre.EvalInt(fc.Decreases.E)
+		if err0 == nil && err1 == nil {
+			fr.obligation("decreases", "recursion", fr.reach, And(Le(IntLit(0), m0), Lt(m1, m0)), fc.Decreases.Text)
+		}
+	}
 	x.cur.calls[fc.Key]++
 	if fc.Trusted {
 		c.Trust("trusted contract of " + fc.Key)
@@ -704,13 +787,16 @@ func (fr *Frame) applyContractSig(fc *FuncContract, callee *ssa.Function, sig *t
 	}
 	bindResults(vars, sig, fc, e, res)
 	envPost := &SpecEnv{x: x, vars: vars, st: st, old: pre, fn: envFn}
-	for _, en := range fc.Ensures {
+	for _, en := range append(append([]Clause(nil), fc.Ensures...), fc.Defines...) {
 		t, err := envPost.EvalBool(en.E)
 		if err != nil {
 			fr.contractError(en, err)
 			continue
 		}
 		c.Assume(Implies(fr.reach, t))
+	}
+	for _, d := range fc.Defines {
+		c.Trust("ghost definition (assumed at call sites, about the fresh result) of " + fc.Key + ": " + d.Text)
 	}
 	return res
 }
@@ -809,6 +895,6 @@ func (fr *Frame) freshResultMemory(rs *types.Tuple, pre *State) {
 		r := Term{"r$f", SInt}
 		c.Assume(Forall([]Term{r}, Implies(Lt(r, pre.alloc), Eq(Select(nw, r), Select(old, r))), Select(nw, r)))
 		c.Assume(e.rangeAxiom(key, nw))
-		x.heapSet(fr.cur, key, nw)
+		x.heapSetFresh(fr.cur, key, nw)
 	}
 }
